@@ -9,7 +9,7 @@ from __future__ import annotations
 from dataclasses import dataclass, field
 from typing import Callable, Dict, List, Optional, Tuple
 
-from . import bd, cc, er, ev, ex, fs, hx, lk, on, oo, rd, rt, sh, st, vw, wk
+from . import bd, bw, cc, er, ev, ex, fs, hx, hy, lk, on, oo, rd, rt, sh, st, vw, wk
 
 
 @dataclass
@@ -110,6 +110,19 @@ RULE_GROUPS: Dict[str, Callable] = {
     'vw.pure': vw.rule_pure,
     'vw.schema': vw.rule_schema,
     'vw.types': vw.rule_types,
+    'vw.source_and_ids': vw.rule_source_and_ids,
+    'hy.context_propagated': hy.rule_context_propagated,
+    'hy.pool_replaceable': hy.rule_pool_replaceable,
+    'hy.fork_context': hy.rule_fork_context,
+    'hy.path_components': hy.rule_path_components,
+    'hy.save_survives_run_exit': hy.rule_save_survives_run_exit,
+    'hy.no_path_enumeration': hy.rule_no_path_enumeration,
+    'hy.user_code_off_loop': hy.rule_user_code_off_loop,
+    'bw.defects_rejected': bw.rule_defects_rejected,
+    'bw.translation': bw.rule_translation,
+    'bw.merges': bw.rule_merges,
+    'bw.string_annotations': bw.rule_string_annotations,
+    'bw.build_node': bw.rule_build_node,
 }
 
 RULES: Dict[str, Tuple[str, str]] = {
@@ -164,6 +177,28 @@ RULES: Dict[str, Tuple[str, str]] = {
     'LK-8': ('hx.no_attempt_after_cancel', 'the retry loop starts no new attempt once its task has been asked to cancel'),
     'CC-8': ('hx.order_vs_dependencies', 'dependencies restricted to a sub-dag come from the sub-dag\'s own edges (consistent with its launch order)'),
     'VL-7': ('bd.annotation_check_semantics', 'the annotation check rejects every un-annotated parameter (whatever its default) and accepts annotated run methods'),
+    'EX-7': ('ex.decision_table', 'no pool is demanded before the run for a node kind whose dispatch never fetches it'),
+    'EX-8': ('hy.context_propagated', 'a body sent to the thread pool runs in a copy of the caller\'s contextvars context'),
+    'EX-9': ('hy.pool_replaceable', 'a pool that is_ready() rejects can be replaced by registering a new one'),
+    'EX-10': ('hy.fork_context', 'the process pool created by the engine does not fork its multi-threaded process'),
+    'FS-6': ('hy.path_components', 'every free-text part of an artifact key is sanitised before it is joined to a path'),
+    'AS-5': ('hy.save_survives_run_exit', 'the save of a published value is not cancellable by the end of the run'),
+    'CC-9': ('hy.no_path_enumeration', 'no exponential path enumeration on the run path'),
+    'CC-10': ('hy.user_code_off_loop', 'constructor and get_default of a pool-mode node do not run on the event-loop thread'),
+    'CC-11': ('hy.user_code_off_loop', 'no execution mode runs a body synchronously inside the node\'s task'),
+    'ER-8': ('lk.spawn_registered', 'the registry scanned for the first error iterates in creation order, not in hash order'),
+    'VW-7': ('vw.source_and_ids', 'the source link of a generic node follows the chain of generic classes to the class that has a source'),
+    'VW-8': ('vw.source_and_ids', 'the edge id is an injective function of (source, target)'),
+    'VL-8': ('bw.defects_rejected', 'a value named by a mark or by the caller is class-checked before its id is computed or it is registered'),
+    'VL-9': ('bw.defects_rejected', 'every path of build() (traversal, single node, input = output) rejects a defective node with the specific error'),
+    'VL-10': ('bw.defects_rejected', 'declaration sets free of defects build, one per mark kind'),
+    'BD-9': ('bw.translation', 'the graph built for one mark of each kind equals the declared relation (nodes, edges, attributes, node map)'),
+    'BD-10': ('bw.merges', 'two declared node classes with the same node id are not merged silently'),
+    'BD-11': ('bw.merges', 'two switch parameters with the same free-text name are not merged silently'),
+    'BD-12': ('bw.string_annotations', 'an annotation given as a string is resolved or rejected, never skipped'),
+    'BN-1': ('bw.build_node', 'the run method generated by build_node is named like the attribute it is stored as'),
+    'BN-2': ('bw.build_node', 'the run method generated by build_node carries the documentation of the wrapped method'),
+    'BN-3': ('bw.build_node', 'the run method generated by build_node carries the not re-bound annotations of the wrapped method'),
     'ON-6': ('st.order_skips_taken_nodes', 'a plain scope schedules exactly the nodes nobody has taken yet; a recurrent scope orders all its nodes'),
     'SH-6': ('cc.wrapper_kind', 'a process wrapper generated for a node class keeps no state in its enclosing scope'),
     'RC-8': ('oo.recurrent_loop', 'the hand-over entry of a recurrent subgraph is removed when the subgraph has finished'),
@@ -580,6 +615,17 @@ _add('C07', 'SH-6')
 _add('C08', 'SH-6')
 _add('C04', 'ON-6')
 _add('C19', 'ON-6')
+_add('C16', 'VL-8', 'VL-9', 'VL-10', 'BD-12', 'BN-3')
+_add('C15', 'BD-9', 'BD-10', 'BD-11', 'BD-12', 'BN-3')
+_add('C17', 'BN-1', 'EX-7')
+_add('C07', 'ER-8', 'EX-9')
+_add('C08', 'EX-9', 'EX-10')
+_add('C17', 'EX-8', 'EX-9', 'EX-10')
+_add('C18', 'FS-6')
+_add('C19', 'AS-5')
+_add('C06', 'CC-9', 'CC-10', 'CC-11')
+_add('C05', 'ER-8')
+_add('C20', 'BN-2', 'VW-7', 'VW-8')
 EXTRA_GROUPS = {
     # additional rule groups that report under an existing rule id
     'C03': ['st.ready_vs_active_subgraph', 'st.kwargs_hidden_verdict'],
